@@ -475,8 +475,8 @@ Proof.
     replace (pre ++ fst x :: snd x :: flat_xi xis) with ((pre ++ [fst x; snd x]) ++ flat_xi xis)
       by (rewrite <- app_assoc; reflexivity).
     unfold lrec2 in IH. rewrite <- IH; try lia.
-    + f_equal. unfold cols_step. rewrite apply_cols_app by (rewrite map_length; assumption).
-      rewrite apply_cols_map, apply_cols_G. apply vadd2_comm.
+    + unfold cols_step. rewrite apply_cols_app by (rewrite map_length; assumption).
+      rewrite apply_cols_map, apply_cols_G. rewrite (vadd2_comm (mv F (apply_cols cols pre))). reflexivity.
     + unfold cols_step. rewrite !app_length, map_length. simpl. lia.
 Qed.
 
